@@ -10,6 +10,7 @@ def tests_dominating(fn, block):
     cfg = cfg_of(fn)
     du = du_of(fn)
     out = []
+    covered = set()
     for sb in cfg.live_blocks():
         st = cfg.blocks[sb]["term"]
         if st["k"] != "switch" or st.get("discr_ty") != "bool":
@@ -25,8 +26,32 @@ def tests_dominating(fn, block):
             e_true = (sb, st["otherwise"]) if val == 0 else (sb, tb)
             if cfg.edge_dominates(e_true, block) and not cfg.edge_dominates(e_false, block):
                 out.append((v[1], (True != neg), v, st["span"]["line"]))
+                covered.add(e_true)
             elif cfg.edge_dominates(e_false, block) and not cfg.edge_dominates(e_true, block):
                 out.append((v[1], (False != neg), v, st["span"]["line"]))
+                covered.add(e_false)
+    # `match x { Some(..) => .., None => return .. }`, `let Some(..) = x else { return .. }`, `x?`: the same knowledge as
+    # `if x.is_none() { return .. }`, established by a switch on the discriminant. Reported as synthetic is_some/is_none/is_ok/is_err
+    # tests of the call that produced x (only for edges not already reported above).
+    from ..guards import guards_of
+    g = guards_of(fn)
+    seen_fact = set()
+    for e, f in g.facts():
+        if f[0] != "variant" or e in covered:
+            continue
+        if not cfg.edge_dominates(e, block):
+            continue
+        pv = du.val_place(du.canon(f[1]))
+        if pv[0] != "call" or (pv[1] or "").endswith("::next"):
+            continue          # the None arm of an iterator's next() is the end of a loop, not a condition on the data
+        key = (e, repr(f[1]))
+        if key in seen_fact:
+            continue
+        seen_fact.add(key)
+        line = cfg.blocks[e[0]]["term"]["span"]["line"]
+        succ = bool(f[3])
+        for nm, tr in (("<match>::is_some", succ), ("<match>::is_none", not succ), ("<match>::is_ok", succ), ("<match>::is_err", not succ)):
+            out.append((nm, tr, pv, line))
     return out
 
 
